@@ -54,6 +54,7 @@ class Codec:
         msg: FIXMessage,
         session: FIXSession,
         raw_seq_num: bool = False,
+        encoding: str = "utf-8",
     ) -> str:
         """Encodes FIXMessage into serialized message.
 
@@ -61,6 +62,8 @@ class Codec:
             msg: generic FIXMessage
             session: current session (for seq num)
             raw_seq_num: if True - uses MsgSeqNum from `msg`
+            encoding: charset the result is going to be converted to bytes with
+                      (BodyLength / CheckSum are computed on these bytes)
 
         Returns:
             encoded message (string)
@@ -121,14 +124,14 @@ class Codec:
         header = []
         msg_type = "%s=%s" % (FTag.MsgType, msg_type)
         header.append("%s=%s" % (FTag.BeginString, self.protocol.beginstring))
-        # BodyLength / CheckSum are defined on bytes put on the wire (utf-8)
-        body_length = len(body.encode("utf-8")) + len(msg_type.encode("utf-8")) + 1
+        # BodyLength / CheckSum are defined on bytes put on the wire
+        body_length = len(body.encode(encoding)) + len(msg_type.encode(encoding)) + 1
         header.append("%s=%i" % (FTag.BodyLength, body_length))
         header.append(msg_type)
 
         fixmsg = self.SOH.join(header) + self.SOH + body
 
-        cksum = sum(fixmsg.encode("utf-8")) % 256
+        cksum = sum(fixmsg.encode(encoding)) % 256
         fixmsg = fixmsg + "%s=%0.3i" % (FTag.CheckSum, cksum)
 
         # print len(fixmsg)
